@@ -251,6 +251,18 @@ def _structures():
     s2.addNewAtom("Zn", xyz=[1 / 3.0, 2 / 3.0, 0.0])
     s2.addNewAtom("O", xyz=[1 / 3.0, 2 / 3.0, 0.382])
     out.append(("hex", s2))
+    # records the writers emit only for particular metadata: PDFfit `shape sphere` / `shape stepcut`, `sharp`, `dcell`
+    try:
+        from diffpy.structure import PDFFitStructure
+
+        for nm, meta in (("sphere", {"spdiameter": 25.0, "delta2": 1.5, "rcut": 3.0, "sratio": 0.8}), ("stepcut", {"stepcut": 12.5, "delta1": 0.3})):
+            p3 = PDFFitStructure(lattice=Lattice(3.0, 3.0, 4.0, 90, 90, 120), title="shape " + nm)
+            p3.addNewAtom("Zn", xyz=[1 / 3.0, 2 / 3.0, 0.0])
+            p3.addNewAtom("O", xyz=[1 / 3.0, 2 / 3.0, 0.382])
+            p3.pdffit.update(meta)
+            out.append((nm, p3))
+    except Exception:
+        pass
     return out
 
 
@@ -313,6 +325,12 @@ def mutant_descriptors(text):
         for j in range(len(toks)):
             for r in range(len(REPL)):
                 ds.append(("rep", i, j, r))
+            w = lines[i][toks[j][0]:toks[j][1]]
+            if any(ch.isalpha() for ch in w):
+                # the same word in another letter case (record keywords, format names, element symbols)
+                for k, v in enumerate((w.upper(), w.capitalize(), w.lower())):
+                    if v != w:
+                        ds.append(("case", i, j, k))
     return ds
 
 
@@ -341,6 +359,12 @@ def apply_mutant(text, d):
         if r == " ":
             r = " " * (e - s)
         out = lines[:i] + [lines[i][:s] + r + lines[i][e:]] + lines[i + 1:]
+    elif op == "case":
+        i, j, k = d[1], d[2], d[3]
+        toks = [m.span() for m in TOK.finditer(lines[i])]
+        s, e = toks[j]
+        w = lines[i][s:e]
+        out = lines[:i] + [lines[i][:s] + (w.upper(), w.capitalize(), w.lower())[k] + lines[i][e:]] + lines[i + 1:]
     else:
         raise ValueError(d)
     return "\n".join(out) + "\n"
